@@ -25,8 +25,8 @@ import (
 type verifC11Event struct {
 	kind  string // "pack": backend Save of a pack file; "index": an index file is written
 	id    restic.ID
-	packs restic.IDs   // index: the packs the index file names
-	blobs []restic.ID  // pack: IDs of the blobs in the pack (from the packer handed to savePacker)
+	packs restic.IDs  // index: the packs the index file names
+	blobs []restic.ID // pack: IDs of the blobs in the pack (from the packer handed to savePacker)
 	ok    bool
 }
 
